@@ -6,7 +6,9 @@ CONSTANTS
   PRECANCEL = TRUE
   ANYCANCEL = FALSE
   ANYCLOSE = FALSE
+  RECHECK = FALSE
 INVARIANT AInv
+INVARIANT ToldIsHeld
 INVARIANT NoOrphan
 INVARIANT NoStuckManager
 INVARIANT CandOK
